@@ -347,11 +347,24 @@ class _Canon(ast.NodeTransformer):
 
 def _canon_private_params(tree: ast.Module) -> None:
     """A parameter of a private module-level function (only ever called directly by name inside its module) is named after what it is
-    bound to: when every call site passes a plain variable of one and the same name N for it, the parameter is called N (unless N is
-    already used inside the callee).  On code that follows the usual convention (`helper(state=state, shots=shots)`) this changes nothing;
+    bound to: when every call site passes a *parameter of the calling function* of one and the same name N for it, the parameter is
+    called N (unless N is already used inside the callee).  Only parameters qualify as donors: they keep their names when locals are renamed.  On code that follows the usual convention (`helper(state=state, shots=shots)`) this changes nothing;
     it makes the rules see the same names after a parameter of a helper was renamed."""
     uses: Dict[str, int] = {}
     calls: Dict[str, List[ast.Call]] = {}
+    # parameters in scope at each call site (of the calling function and of the functions it is nested in): only such names are stable
+    # under a renaming of locals, so only they may give a callee's parameter its canonical name
+    scope_params: Dict[int, set] = {}
+
+    def visit(node: ast.AST, params: frozenset) -> None:
+        if isinstance(node, (ast.FunctionDef, ast.AsyncFunctionDef, ast.Lambda)):
+            a = node.args
+            params = params | frozenset(x.arg for x in a.posonlyargs + a.args + a.kwonlyargs) | frozenset(x.arg for x in (a.vararg, a.kwarg) if x)
+        if isinstance(node, ast.Call):
+            scope_params[id(node)] = set(params)
+        for ch in ast.iter_child_nodes(node):
+            visit(ch, params)
+    visit(tree, frozenset())
     for n in ast.walk(tree):
         if isinstance(n, ast.Name) and isinstance(n.ctx, ast.Load):
             uses[n.id] = uses.get(n.id, 0) + 1
@@ -381,7 +394,7 @@ def _canon_private_params(tree: ast.Module) -> None:
                     a_ = next((k.value for k in c.keywords if k.arg == p_), None)
                 if isinstance(a_, ast.Name) and a_.id == p_ and any(x is c for x in ast.walk(f)):
                     continue   # a recursive call that passes the parameter on says nothing about its name
-                given.add(a_.id if isinstance(a_, ast.Name) else None)
+                given.add(a_.id if isinstance(a_, ast.Name) and a_.id in scope_params.get(id(c), ()) else None)
             if len(given) == 1 and None not in given:
                 new = next(iter(given))
                 if new != p_ and new not in body_names and new not in ren.values() and new not in ("self", "cls"):
